@@ -432,6 +432,8 @@ func init() {
 		assumptions: []string{"cheap always-valid biases (const fatigue, reversal) are used where firing is read from props != null"},
 		streams: []*stream{
 			{name: "echo", n: tierN(14000, 300000), unit: 3500, run: c08Echo, floors: map[string]int64{"echo_checked": 8000, "disabled_equivalence_checked": 4000, "http_path_compared": 8000}},
+			{name: "echo-service", n: tierN(3000, 50000), unit: 1500, run: c08Echo, service: true,
+				note: "the same generator and oracle as the stream named in front of the dash, but every request goes through decideHandler of main.go in-process (gin binding, the handler's own request object) after a history of 1..3 unrelated requests (accepted and rejected)"},
 			{name: "threshold", n: tierN(600, 12000), unit: 75, run: c08Threshold, floors: map[string]int64{"thresholds_checked": 500, "independence_checked": 1000}},
 			{name: "frequency", n: tierN(20, 200), unit: 2, run: c08Frequency, floors: map[string]int64{"frequency_batteries": 20}},
 			{name: "processes", n: tierN(2, 12), unit: 1, run: c08Processes, floors: map[string]int64{"seed_families_cross_process": 40},
